@@ -44,6 +44,15 @@ MODELS = {
     "circuit3": dict(doms=3, vars=[(0, 0), (1, 0), (2, 0)], props=[([0, 1, 2], "alldifferent", []), ([0, 1, 2], "no_sub_cycle", [])], base=0, D=2),
     "circuit3_twice": dict(doms=3, vars=[(0, 0), (1, 0), (2, 0)], props=[([0, 1, 2], "alldifferent", []), ([0, 1, 2], "no_sub_cycle", []), ([0, 1, 2], "no_sub_cycle", [])], base=0, D=2),
     "circuit3_scc": dict(doms=3, vars=[(0, 0), (1, 0), (2, 0)], props=[([0, 1, 2], "alldifferent", []), ([0, 1, 2], "scc", [])], base=0, D=2),
+    # one call moves BOTH bounds of x (table look-up) while a cheaper constraint, already run, watches only one of them
+    # (configuration selection: x_k = T_k[z], x1 + x2 + x3 <= c; fixing z moves both bounds of every x_k, nothing else wakes the sum)
+    "config3": dict(doms=4, vars=[(0, 0), (1, 0), (2, 0), (3, 0)], props=[([1, 2, 3], "affine_leq", [1, 1, 1, S]), ([0, 1], "element_iv", [1, 0, 2]), ([0, 2], "element_iv", [1, 2, 0]), ([0, 3], "element_iv", [1, 0, 2])], base=0),
+    "config3_geq": dict(doms=4, vars=[(0, 0), (1, 0), (2, 0), (3, 0)], props=[([1, 2, 3], "affine_geq", [1, 1, 1, S]), ([0, 1], "element_iv", [1, 0, 2]), ([0, 2], "element_iv", [1, 2, 0]), ([0, 3], "element_iv", [1, 0, 2])], base=0),
+    # restart scenarios of optimize(): the first branch of the first decision is refuted (x + u >= s1 and u - x <= s2 are each
+    # bound-consistent at the root), constraints become entailed at the restricted level 0, a solution is found, the next
+    # iteration starts again from the full root box
+    "restart2": dict(doms=2, vars=[(0, 0), (1, 0)], props=[([0, 1], "affine_geq", [1, 1, S]), ([0, 1], "affine_leq", [-1, 1, S])]),
+    "restart3": dict(doms=3, vars=[(0, 0), (1, 0), (2, 0)], props=[([0, 1], "affine_geq", [1, 1, S]), ([0, 1], "affine_leq", [-1, 1, S]), ([0, 2], "affine_leq", [2, 1, S])], D=1),
     "free2": dict(doms=2, vars=[(0, 0), (1, 0)], props=[]),
     "dummy_only": dict(doms=2, vars=[(0, 0), (1, "o0")], props=[([0, 1], "dummy", [])]),
     "obj_under_leq": dict(doms=2, vars=[(0, 0), (1, 0)], props=[([0, 1], "affine_leq", [1, 1, S])]),
@@ -365,6 +374,56 @@ class FixpointProbe:
         CA.CONSISTENCY_ALG_FCTS[:] = self.saved
 
 
+class EntailProbe:
+    """C07, engine level: whenever a consistency algorithm is entered, every constraint that is disabled at the current level
+    (its flag in not_entailed_propagators_stack is off) is entailed by the current box: no tuple of the box violates its
+    documented relation.  The flag rows are what cp_put copies, backtrack restores and reset / cp_init re-arm."""
+
+    SKIP = ("no_sub_cycle", "scc", "dummy")  # decisive on permutations only / never entailed by design
+
+    def __init__(self, E, mods, ctx, report, alg_name):
+        self.E, self.mods, self.ctx, self.report, self.alg_name = E, mods, ctx, report, alg_name
+        self.saved = None
+        self.checked = 0
+
+    def install(self):
+        H, P, BS, BCA, CP, CA, SH, Problem = self.mods
+        self.saved = list(CA.CONSISTENCY_ALG_FCTS)
+        E = self.E
+
+        def wrap(f):
+            def w(statistics, algorithms, var_bounds, param_bounds, dia, doa, pdi, pdo, pp, triggers, stack, ne, du, st, trig, addrs, dec):
+                top = int(st[0])
+                nd = len(stack[top])
+                for p in range(len(algorithms)):
+                    en = ne[top, p]
+                    if en if isinstance(en, bool) else bool(en):
+                        continue
+                    name = self.alg_name(int(algorithms[p]))
+                    if name in self.SKIP or name not in ZREL:
+                        continue
+                    vs, ve = int(var_bounds[p, 0]), int(var_bounds[p, 1])
+                    idx = [int(i) for i in pdi[vs:ve].flat_values()]
+                    offs = [as_z3int(o) for o in pdo[vs:ve].flat_values()]
+                    par = [as_z3int(q) for q in pp[int(param_bounds[p, 0]) : int(param_bounds[p, 1])].flat_values()]
+                    x = {d: z3.Int(f"ent{d}") for d in set(idx)}
+                    box = AND([z3.And(as_z3int(stack[top, d, 0]) <= x[d], x[d] <= as_z3int(stack[top, d, 1])) for d in x])
+                    self.checked += 1
+                    E.acc.count("disabled-constraint-checked")
+                    if E.query(z3.And(box, z3.Not(ZREL[name]([x[d] + o for d, o in zip(idx, offs)], par)))):
+                        self.report("C07", "disabled-constraint-not-entailed", E.model(), prop_index=p, alg_name=name, level=top, modes=["interpreted"])
+                return f(statistics, algorithms, var_bounds, param_bounds, dia, doa, pdi, pdo, pp, triggers, stack, ne, du, st, trig, addrs, dec)
+
+            return w
+
+        for i, f in enumerate(self.saved):
+            CA.CONSISTENCY_ALG_FCTS[i] = wrap(f)
+
+    def remove(self):
+        CA = self.mods[5]
+        CA.CONSISTENCY_ALG_FCTS[:] = self.saved
+
+
 @register("solve")
 def make(model, cfg=None, mode="solve", select=("C01", "C02"), order=None, objective=0, D=None, known=(), history=None, loop_budget=None, partial=None):
     """mode: solve | minimize | maximize"""
@@ -402,6 +461,8 @@ def make(model, cfg=None, mode="solve", select=("C01", "C02"), order=None, objec
             if m is not None:
                 v.update(wit(m))
             v.update(kw2)
+            if E.pc_mentions_havoc():
+                v["havoc_dependent"] = True
             ks = [k for k in known if k["kind"] == kind and k["prop"] == prop and (k.get("alg") is None or k.get("alg") == kw2.get("alg_name"))]
             if ks:
                 v["cls"] = ks[0]["cls"]
@@ -409,6 +470,7 @@ def make(model, cfg=None, mode="solve", select=("C01", "C02"), order=None, objec
 
         ghost = Ghost(E, mods) if "C17" in select else None
         probe = FixpointProbe(E, mods, ctx, report) if "C08" in select else None
+        eprobe = EntailProbe(E, mods, ctx, report, FixpointProbe(E, mods, ctx, report).alg_name) if "C07" in select else None
         rounds = [0]
         real_solve_one = BS.solve_one
         if mode not in ("solve", "solve_q"):
@@ -435,6 +497,8 @@ def make(model, cfg=None, mode="solve", select=("C01", "C02"), order=None, objec
             return real_pop(tp, prev)
 
         BCA.pop_propagator = counted_pop
+        if eprobe:
+            eprobe.install()
         if probe:
             probe.install()
         if ghost:
@@ -486,7 +550,7 @@ def make(model, cfg=None, mode="solve", select=("C01", "C02"), order=None, objec
             stats = solver.get_statistics()
         except Obligation as o:
             E.acc.count("obligation:" + o.kind)
-            prefer = ["C16"] + (["C03"] if mode not in ("solve", "solve_q") else []) + ["C01", "C04", "C02", "C17", "C08", "C15"]
+            prefer = ["C16"] + (["C03"] if mode not in ("solve", "solve_q") else []) + ["C01", "C04", "C02", "C17", "C08", "C15", "C07"]
             prop = next((p_ for p_ in prefer if p_ in select), None)
             if prop is None:
                 E.acc.count("budget-unlisted")  # no result to judge
@@ -500,6 +564,8 @@ def make(model, cfg=None, mode="solve", select=("C01", "C02"), order=None, objec
                 ghost.remove()
             if probe:
                 probe.remove()
+            if eprobe:
+                eprobe.remove()
             for lst, n in zip((P.COMPUTE_DOMAINS_FCTS, P.GET_TRIGGERS_FCTS, P.GET_COMPLEXITY_FCTS, H.DOM_HEURISTIC_FCTS, H.VAR_HEURISTIC_FCTS, CA.CONSISTENCY_ALG_FCTS), reg_lens):
                 del lst[n:]
         opt_dir = {"minimize": "min", "minimize_q": "min", "maximize": "max", "maximize_q": "max"}.get(mode)
@@ -589,6 +655,13 @@ def make(model, cfg=None, mode="solve", select=("C01", "C02"), order=None, objec
                     used |= {str(c) for c in _consts(v)}
             if used & names:
                 report("C15", "result-depends-on-uninitialised-memory", None, cells=sorted(used & names)[:5])
+        dep = E.pc_mentions_havoc()
+        if dep:
+            # the run took a decision on a cell of an np.empty array: what the real build does depends on what that memory holds
+            E.acc.count("control-flow-depends-on-uninitialised-memory")
+            if "C15" in select:
+                report("C15", "control-flow-depends-on-uninitialised-memory", None, cells=dep[:5], modes=["interpreted"])
+            return  # no witness for the per-path validation: the real memory content is not the solver's choice
         # ------------------------------------------------------------------ witness for validation
         if E.check():
             m = E.model()
